@@ -329,7 +329,7 @@ end Qbice.Core
 /-
 Extended core model (`Qbice.CoreFw`): ALL acyclic programs — the five kinds input, normal, external,
 FIREWALL and PROJECTION — with the engine logic of the REPAIRED design (`Model/Engine.lean` with the
-switches `f1p`, `f1q`, `f14` on; `f2`, `f16`, `f33` are on by default; cycles are out of scope:
+switches `f1p`, `f1q`, `f14`, `f1r` on; `f2`, `f16`, `f33` are on by default; cycles are out of scope:
 rank = key index).  Same representation as above: maps are functions, recursion by fuel with the
 recursive call as a parameter.  `Qbice.Core` above is the firewall-free instance of this model (it
 stays as the model of C07 / C08 and of `C02_full_statement`).
@@ -546,23 +546,37 @@ def hasEdge (s : St) (c x : Key) : Bool :=
 def markDirty (s : St) (changed : List Key) : St :=
   { s with dirty := fun c x => s.dirty c x || (hasEdge s c x && affected s changed (x + 1) x) }
 
+/-- the re-execution of the firewall / projection `k` returned a value different from the stored one -/
+def valueChanged (s : St) (k : Key) (v : Val) : Bool :=
+  match s.nodes k with
+  | some o => isFwPj o.kind && decide (o.value ≠ v)
+  | none => false
+
+/-- `f1r`: the projection `k` is published with a set different from the stored one -/
+def projTfcChanged (s : St) (k : Key) (t : List Key) : Bool :=
+  match s.nodes k with
+  | some o => decide (o.kind = .projection) && decide (o.tfc ≠ t)
+  | none => false
+
 /-- `execute_query` + `set_computed` -/
 def execute (q : Q) (k : Key) (d : NodeDef) (s : St) : Except Err (Val × St) :=
   match runProg q d.prog {} s with
   | .error e => .error e
   | .ok (v, a, s1) =>
-    let changed : Bool := match s1.nodes k with
-      | some o => isFwPj o.kind && decide (o.value ≠ v)
-      | none => false
+    -- `f1r`: a projection whose set changes is treated like one whose value changes
+    let changed : Bool := valueChanged s1 k v || projTfcChanged s1 k a.tfc
     let s2 := if changed then markDirty s1 [k] else s1
     .ok (v, install s2 k { kind := d.kind, lastVerified := s1.epoch, value := v, deps := a.deps,
                            seen := a.seen, tfc := a.tfc, pendingBP := changed || hasPending s1 k })
 
+/-- the node of an external key computed on first demand -/
+def extNode (s : St) (d : NodeDef) : Node :=
+  { kind := .external, lastVerified := s.epoch, value := d.ext s.world, deps := [],
+    seen := fun _ => [], tfc := [], pendingBP := false }
+
 /-- first demand of an external key: its executor reads the world -/
 def executeExt (k : Key) (d : NodeDef) (s : St) : Val × St :=
-  let v := d.ext s.world
-  (v, install s k { kind := .external, lastVerified := s.epoch, value := v, deps := [],
-                    seen := fun _ => [], tfc := [], pendingBP := false })
+  (d.ext s.world, install s k (extNode s d))
 
 /-- `clean_query` -/
 def cleanNode (s : St) (n : Node) (moved : Bool) : Node :=
@@ -592,7 +606,11 @@ def queryQ (p : Program) : Nat → Bool → Q
           | .error e => .error e
           | .ok (true, _, _, s1) => execute (queryQ p fuel ped) k d s1
           | .ok (false, moved, cl, s1) =>
-            .ok (n.value, setNode (clearDirtyList s1 k cl) k (cleanNode s1 n moved))
+            let n' := cleanNode s1 n moved
+            -- `f1r`: a projection whose set changes is treated like one whose value changes
+            if n.kind = .projection ∧ n'.tfc ≠ n.tfc then
+              .ok (n.value, setNode (clearDirtyList (markDirty s1 [k]) k cl) k { n' with pendingBP := true })
+            else .ok (n.value, setNode (clearDirtyList s1 k cl) k n')
 
 def fuelFor (p : Program) : Nat := p.length + 1
 
@@ -705,6 +723,11 @@ def refreshAll (p : Program) (s : St) (ch : List Key) : St × List Key :=
   let exts := (List.range p.length).filter (isExtNode s)
   ({ s with nodes := refreshNode p s, log := s.log ++ exts }, ch ++ exts.filter (extChanged p s))
 
+/-- `set_computed_input` -/
+def inputNode (s : St) (v : Val) : Node :=
+  { kind := .input, lastVerified := s.epoch, value := v, deps := [], seen := fun _ => [], tfc := [],
+    pendingBP := false }
+
 /-- the writes of one session: `set_input` per `set`, `refresh` -/
 def applySets (p : Program) : List Write → St → List SetRes → List Key →
     Except Err (St × List SetRes × List Key)
@@ -718,9 +741,7 @@ def applySets (p : Program) : List Write → St → List SetRes → List Key →
         let r := match s.nodes k with
           | none => SetRes.fresh
           | some n => if n.value ≠ v then .updated else .unchanged
-        let s' := setNode s k { kind := .input, lastVerified := s.epoch, value := v, deps := [],
-                                seen := fun _ => [], tfc := [], pendingBP := false }
-        applySets p rest s' (rs ++ [r]) (if r = .updated then ch ++ [k] else ch)
+        applySets p rest (setNode s k (inputNode s v)) (rs ++ [r]) (if r = .updated then ch ++ [k] else ch)
   | .world _ _ :: rest, s, rs, ch => applySets p rest s (rs ++ [.world]) ch
   | .refresh :: rest, s, rs, ch =>
     let r := refreshAll p s ch
